@@ -318,9 +318,12 @@ def e2e(ctx, descs, bad_rate):
                         fp.write("%s text outside any block is ignored\n" % lead[g])
                         for (gg, bn), (body, _) in chosen.items():
                             if gg == g:
-                                fp.write("%s splicer begin %s\n" % (lead[g], bn))
+                                # (words after the block name on a marker line are allowed and ignored: a remark, the end of a
+                                #  C89 comment)
+                                tail = ctx.rng.choice(["", "", "   -- keep", " */" if g == "c" else "   remark"])
+                                fp.write("%s splicer begin %s%s\n" % ("/*" if tail == " */" else lead[g], bn, tail))
                                 fp.write("".join(l + "\n" for l in body))
-                                fp.write("%s splicer end %s\n\nstray text\n" % (lead[g], bn))
+                                fp.write("%s splicer end %s%s\n\nstray text\n" % ("/*" if tail == " */" else lead[g], bn, tail))
                     extra.append(fn)
             elif route == "yaml-files":
                 ext = {"c": ".c", "f": ".f", "py": ".py", "lua": ".lua"}
